@@ -21,8 +21,10 @@ from .mirparse import MirSyntax
 
 VERIF = os.path.dirname(os.path.dirname(os.path.abspath(__file__)))
 BUILD = loader.BUILD
-EVIDENCE_DIR = os.path.join(VERIF, 'evidence')
-CEX_DIR = os.path.join(VERIF, 'counterexamples')
+# the registered commands never set these; tools/try_seed.sh does, to evaluate a seeded change in a scratch copy of the
+# repository without touching /repo, /verif/evidence or /verif/build
+EVIDENCE_DIR = os.environ.get('VERIF_EVIDENCE_DIR', os.path.join(VERIF, 'evidence'))
+CEX_DIR = os.environ.get('VERIF_CEX_DIR', os.path.join(VERIF, 'counterexamples'))
 KNOWN = os.path.join(VERIF, 'known_findings.json')
 
 
@@ -53,6 +55,17 @@ def build_replay(profile='dev'):
     env['CARGO_TARGET_DIR'] = os.path.join(BUILD, 'replay')
     env['CARGO_NET_OFFLINE'] = 'true'
     src = os.path.join(VERIF, 'replay')
+    if loader.REPO != '/repo':
+        # scratch evaluation of a seeded change: a copy of the replay crate whose path dependencies point at that tree
+        import shutil
+        dst = os.path.join(BUILD, 'replay-src')
+        shutil.rmtree(dst, ignore_errors=True)
+        shutil.copytree(src, dst, ignore=shutil.ignore_patterns('target', 'Cargo.lock'))
+        with open(os.path.join(dst, 'Cargo.toml')) as f:
+            toml = f.read().replace('"/repo', '"' + loader.REPO)
+        with open(os.path.join(dst, 'Cargo.toml'), 'w') as f:
+            f.write(toml)
+        src = dst
     with Lock('replay'):
         lock_src = os.path.join(loader.REPO, 'Cargo.lock')
         try:
